@@ -62,9 +62,14 @@ def tree_key(t):
     return json.dumps(t, sort_keys=True)
 
 
-def model_phase(run, bounds, invariants, want_pairs=False, max_single=None, faults=()):
-    """Run TLC over each (alphabet, N, stack, arity) with the property's laws as invariants; dump and collect trees."""
+def model_phase(run, bounds, invariants, want_pairs=False, max_single=100000, faults=(), max_pairs=400000):
+    """Run TLC over each (alphabet, N, stack, arity) with the property's laws as invariants; dump and collect trees.
+    Memory: per alphabet at most `max_single` trees of more than 3 nodes are kept (seeded reservoir sample over the streamed dump;
+    every smaller tree is kept); TLC's laws are checked on all of them regardless."""
+    import random
+    rng = random.Random(run.seed * 7919 + 13)
     singles, pairs = {}, []
+    seen_pairs = 0
     for (alpha, n, st, ar) in bounds:
         mod, cfg = treecfg.cfg(alpha, n, st, ar, invariants, faults=faults if alpha == 'F' else ())
         r = run.tlc(f'gen{alpha}{n}', mod, cfg, dump=True, timeout=3000)
@@ -72,16 +77,43 @@ def model_phase(run, bounds, invariants, want_pairs=False, max_single=None, faul
             tr = tla.error_trace(r.out)
             run.violation({'kind': 'model', 'invariant': r.violated, 'alphabet': alpha, 'trace': [thaw(s) for _, s in tr][-1:]},
                           f'TLC: law {r.violated} fails on the specification itself (alphabet {alpha}, N={n})')
+        big_keys, seen_big = [], 0
         if r.dump and os.path.exists(r.dump):
             for stt in tla.read_dump(r.dump):
                 stack = stt['stack']
                 if len(stack) == 1:
                     t = thaw(stack[0])
-                    singles.setdefault(tree_key(t), t)
+                    k = tree_key(t)
+                    if k in singles:
+                        continue
+                    if tree_size(t) <= 3:
+                        singles[k] = t
+                        continue
+                    seen_big += 1
+                    if len(big_keys) < max_single:
+                        singles[k] = t
+                        big_keys.append(k)
+                    else:
+                        j = rng.randrange(seen_big)
+                        if j < max_single:
+                            del singles[big_keys[j]]
+                            singles[k] = t
+                            big_keys[j] = k
                 elif want_pairs and len(stack) == 2:
-                    pairs.append((thaw(stack[0]), thaw(stack[1])))
+                    seen_pairs += 1
+                    if len(pairs) < max_pairs:
+                        pairs.append((thaw(stack[0]), thaw(stack[1])))
+                    else:
+                        j = rng.randrange(seen_pairs)
+                        if j < max_pairs:
+                            pairs[j] = (thaw(stack[0]), thaw(stack[1]))
             os.remove(r.dump)
+        if seen_big > max_single:
+            run.extra[f'generated_trees_{alpha}{n}'] = seen_big
+            run.extra[f'kept_trees_{alpha}{n}'] = max_single
         shutil.rmtree(os.path.join(r.wd, 'meta'), ignore_errors=True)
+    if seen_pairs > max_pairs:
+        run.extra['generated_pairs_model_phase'] = seen_pairs
     return list(singles.values()), pairs
 
 
